@@ -224,17 +224,41 @@ def sample_targets():
     return SAMPLE_TARGETS
 
 
+class _Budget(BaseException):
+    """raised by the interval timer: glom's own `except Exception` clauses do not catch it"""
+
+
+def _on_alarm(signum, frame):
+    raise _Budget()
+
+
 def outcome(spec, target):
+    """outcome of glom(target, spec); evaluation is cut off after 0.25 s (wildcards over the
+    scope can explode) — a cut-off evaluation counts as equal to anything: never a violation"""
     import glom
+    import signal
+    old = signal.signal(signal.SIGALRM, _on_alarm)
+    signal.setitimer(signal.ITIMER_REAL, 0.25)
     try:
         r = glom.glom(target, spec, scope={'a': {'b': 1}, 'b': 2, 0: 'z'})
+    except _Budget:
+        return None
+    except RecursionError:
+        return None
     except Exception as e:
         return ('exc', c01.exc_name(e), getattr(e, 'part_idx', None))
+    finally:
+        signal.setitimer(signal.ITIMER_REAL, 0)
+        signal.signal(signal.SIGALRM, old)
     try:
         # S-rooted wildcards reach per-call scope internals: mask memory addresses
         return ('ok', re.sub(r'0x[0-9a-fA-F]+', '0x?', repr(r)))
     except Exception:
         return ('ok', '<unreprable>')
+
+
+def same_outcome(a, b):
+    return a is None or b is None or a == b
 
 
 def run_repr(case):
@@ -248,7 +272,7 @@ def run_repr(case):
     if y is not None and enc_obj(y) is not None:
         obs['eval'] = enc_obj(y)
         obs['text2'] = repr(y)
-        obs['same_eval'] = all(outcome(x, t) == outcome(y, t) for t in sample_targets())
+        obs['same_eval'] = all(same_outcome(outcome(x, t), outcome(y, t)) for t in sample_targets())
     try:
         z = pickle.loads(pickle.dumps(x))
         obs['pickled'] = enc_obj(z)
@@ -394,7 +418,10 @@ def gen_arg(r, depth, atom_kinds=None):
     """a call argument / slice part / tuple element: literal or nested T expression"""
     if depth > 0 and r.random() < 0.22:
         root = r.choice(['T', 'T', 'S'])
-        return {'t': {'root': root, 'steps': fix_s_call(root, gen_steps(r, r.randint(0, 3), depth - 1, False))}}
+        steps = fix_s_call(root, gen_steps(r, r.randint(0, 3), depth - 1, False))
+        if not a_ok(root, steps):
+            root = 'T'
+        return {'t': {'root': root, 'steps': steps}}
     v = gen_literal(r, r.choice(atom_kinds) if atom_kinds else None)
     return lit(v)
 
@@ -443,9 +470,13 @@ def gen_steps(r, n, depth, allow_seg):
 
 
 def a_ok(root, steps):
-    """_t_child refuses calls and wildcards on A paths"""
-    return not (root == 'A' and any(st in ('star', 'starstar') or (isinstance(st, dict) and 'call' in st)
-                                    for st in steps))
+    """_t_child refuses calls and wildcards on A paths; wildcards over the scope (S root) are not
+    generated either: evaluating them walks glom's own per-call state"""
+    if root == 'A':
+        return not any(st in ('star', 'starstar') or (isinstance(st, dict) and 'call' in st) for st in steps)
+    if root == 'S':
+        return not any(st in ('star', 'starstar') for st in steps)
+    return True
 
 
 def fix_s_call(root, steps):
